@@ -6,8 +6,8 @@ import Proofs.FormatStageLex
 C09, accepted declaration texts: from the range of the readers to the text-side
 statements.
 
-* `wfStage_canon`: `HOK h`, `stageRaw s`, valid strings and `mem_gb`/`vmem_gb` of
-  `int64` size give `wfStage (canonStage h s)`;
+* `wfStage_canon`: `HOK h`, `stageRaw s`, valid strings and `mem_gb`/`vmem_gb` below
+  256 GB in magnitude (`stageMB32Valid`, i.e. `wfMB`) give `wfStage (canonStage h s)`;
 * `canonStage_fixed`: canonicalising the threads text of a canonicalised stage
   changes nothing (clause `fixed` of `HOK`);
 * `parseStageH_fmtStage`: for every text the real parser accepts, the printed
@@ -54,7 +54,7 @@ theorem canonRes_fixed (h : Bytes → Bytes) (hh : HOK h) (r : Res) (hr : resRaw
 
 /-- from the range of the reader to `wfStage`, for the stage as Go holds it -/
 theorem wfStage_canon (h : Bytes → Bytes) (hh : HOK h) (s : Stage) (hr : stageRaw s = true)
-    (hs : stageStrsValid (canonStage h s) = true) (hm : stageMBValid (canonStage h s) = true) :
+    (hs : stageStrsValid (canonStage h s) = true) (hm : stageMB32Valid (canonStage h s) = true) :
     wfStage (canonStage h s) = true := by
   obtain ⟨id, ins, outs, lang, path, args, split, ci, co, res, ret⟩ := s
   simp only [stageRaw, Bool.and_eq_true] at hr
@@ -68,7 +68,7 @@ theorem wfStage_canon (h : Bytes → Bytes) (hh : HOK h) (s : Stage) (hr : stage
   · cases res with
     | none => rfl
     | some r =>
-      simp only [stageMBValid, canonStage, Option.map_some] at hm
+      simp only [stageMB32Valid, canonStage, Option.map_some] at hm
       exact wfRes_canon h hh r r13 hm s6
 
 theorem canonStage_fixed (h : Bytes → Bytes) (hh : HOK h) (s : Stage) (hr : stageRaw s = true) :
@@ -83,16 +83,17 @@ theorem canonStage_fixed (h : Bytes → Bytes) (hh : HOK h) (s : Stage) (hr : st
     simp only [canonStage, Option.map_some]
     rw [canonRes_fixed h hh r h13]
 
-/-- **The parser produces well-formed stages**, up to F6b and F25 -/
+/-- **The parser produces well-formed stages**, up to F6b and resources of 256 GB and more (F29's
+range, `wfMB`; F25 is subsumed) -/
 theorem parseStageH_wf (h : Bytes → Bytes) (hh : HOK h) (src : Bytes) (s : Stage)
-    (hp : parseStageH h src = some s) (hs : stageStrsValid s = true) (hm : stageMBValid s = true) :
+    (hp : parseStageH h src = some s) (hs : stageStrsValid s = true) (hm : stageMB32Valid s = true) :
     wfStage s = true := by
   obtain ⟨s0, h0, rfl⟩ := parseStageH_inv hp
   exact wfStage_canon h hh s0 (parseStage_range src s0 h0) hs hm
 
-/-- **Formatting preserves every accepted stage text**, up to F6b and F25 -/
+/-- **Formatting preserves every accepted stage text**, up to F6b and F29's range (F25 subsumed) -/
 theorem parseStageH_fmtStage (h : Bytes → Bytes) (hh : HOK h) (src : Bytes) (s : Stage)
-    (hp : parseStageH h src = some s) (hs : stageStrsValid s = true) (hm : stageMBValid s = true) :
+    (hp : parseStageH h src = some s) (hs : stageStrsValid s = true) (hm : stageMB32Valid s = true) :
     parseStageH h (fmtStage s) = some s ∧
     ∀ s', parseStageH h (fmtStage s) = some s' → fmtStage s' = fmtStage s := by
   obtain ⟨s0, h0, rfl⟩ := parseStageH_inv hp
